@@ -167,6 +167,23 @@ def run_C06(ctx):
     # half under large caches, half under tiny ones (a refused call must not evict anything either)
     cases = corpus("C06") + gen_cases(ctx, n - n // 2, 5, ctx.scale(50, 200), big_cache=True, p_reject=0.2, restarts=1, finals=fin) \
         + gen_cases(ctx, n // 2, 5, ctx.scale(50, 200), big_cache=False, small_cache=True, p_reject=0.2, restarts=1, finals=fin)
+    # a batch refused at an entry that is not its last one: what follows the refused entry would be
+    # acceptable on its own (a re-delivered entry in front of new ones, an out-of-order batch)
+    rnd = ctx.rnd
+    for j in range(ctx.scale(12, 60)):
+        cfg = "%s 1048576 1073741824 1 64" % rnd.choice(["100000 1073741824", "100000 1073741824", "2 64"])
+        n0 = rnd.randint(1, 5)
+        ops = ["A " + " ".join("1 %d x%02x" % (i, 0x61 + i) for i in range(n0))]
+        kind = j % 3
+        if kind == 0:      # the last stored entry again, then new ones
+            b = ["1 %d x%02x" % (n0 - 1, 0x61 + n0 - 1)] + ["1 %d x7a" % (n0 + i) for i in range(rnd.randint(1, 2))]
+        elif kind == 1:    # out of order: a gap first, then the entry that was due
+            b = ["1 %d x7a" % (n0 + 1), "1 %d x7b" % n0]
+        else:              # an accepted prefix, a refused entry, an acceptable tail
+            b = ["1 %d x7a" % n0, "1 %d x7b" % (n0 + rnd.choice([0, 2])), "1 %d x7c" % (n0 + 1)]
+        ops += ["A " + " ".join(b), "R 0 100", "A 1 %d x7d" % (n0 + (1 if kind == 2 else 0)), "R 0 100"]
+        cases.append("SEQ %s | %s" % (cfg, " ; ".join(gen.sync_ops(ops) + fin)))
+        ctx.count("refused_in_mid_batch_cases")
     # a stat + resident listing around every operation, so that a refused call can be compared before/after
     cases2 = []
     for c in cases:
@@ -508,6 +525,19 @@ def run_C11(ctx):
                 ol[pos + 1:pos + 1] = ["WA %d" % rr.choice([0, 1, 2, 3, 5])]
             cases[k] = head + "| " + " ; ".join(ol)
             ctx.count("aborted_dumps")
+    # a purge whose record fills the open chunk (the rotation hands every byte to the worker, so
+    # nothing is pending), then a flush WITHOUT callback as the last thing before the layout is
+    # judged: the obsolete files must be gone and the reported size must be that of the files
+    for j in range(ctx.scale(16, 80)):
+        R = rr.choice([0, 1, 2, 3, 4, 5])
+        cfg = "100000 1073741824 %d 1073741824 1 %d" % (R, rr.choice(gen.CFG_RBUF))
+        per = max(1, R - 1)                                 # records per chunk besides the head
+        k = rr.randint(2, 4)
+        ops = ["A 1 %d x%02x" % (i, 0x30 + i) for i in range(k * per)] + [rr.choice(["F 1", "F 0"])]
+        ops += ["V %d 1" % (2 + i) for i in range(per - 1)]  # the open chunk: head + per-1 votes
+        ops += ["P 1 %d" % rr.randint(per - 1, k * per - 1)]
+        cases.append("SEQ %s | %s" % (cfg, " ; ".join(gen.sync_ops(ops) + ["F 0", "I", "G", "Z", "W", "K"])))
+        ctx.count("purge_fills_chunk_then_flush_without_callback")
     impl, model = seq_run(ctx, cases)
     bad = 0
     for c, a in zip(cases, impl):
@@ -733,6 +763,44 @@ def run_C02(ctx):
     cases = corpus("C02") + gen_cases(ctx, n, 5, ctx.scale(60, 250), big_cache=True, p_reject=0.05, restarts=4,
                                       finals=["F 1", "I", "W", "G", "R 0 100000", "D", "K",
                                               "X 100000 1073741824 3 200 1 1", "G", "R 0 100000", "D", "K"])
+    # restarts under a TINY cache: whatever sits in the re-opened newest chunk (entries before and
+    # after a state record written in the middle of it, say) must still be readable afterwards;
+    # append-only histories (no truncation: finding F2 of C07 is not C02's subject)
+    rnd = ctx.rnd
+    tiny = []
+    for j in range(ctx.scale(40, 300)):
+        recs = rnd.choice([3, 4, 6, 9, 1 << 20])
+        cfg = "%s %d 1073741824 1 %d" % (rnd.choice(["100000 1073741824", "2 1073741824", "0 0"]), recs, rnd.choice(gen.CFG_RBUF))
+        ops, idx = [], 0
+        for _ in range(rnd.randint(3, 14)):
+            r = rnd.random()
+            if r < 0.6:
+                ops.append("A 1 %d %s" % (idx, gen.hx(gen.rand_payload(rnd, big=0.02)))); idx += 1
+            elif r < 0.8:
+                ops.append("U %s" % gen.hx(gen.rand_payload(rnd, big=0.0)))
+            elif r < 0.9:
+                ops.append("V %d 1" % (2 + len(ops)))
+            elif idx:
+                ops.append("C 1 %d" % rnd.randrange(idx))
+        small = "%d %d %d 1073741824 1 %d" % (rnd.choice([0, 1, 2]), rnd.choice([0, 16, 1 << 30]), rnd.choice([recs, recs, 1 << 20]), rnd.choice(gen.CFG_RBUF))
+        tiny.append("SEQ %s | %s" % (cfg, " ; ".join(gen.sync_ops(ops) + ["F 1", "I", "W", "G", "R 0 100000", "D", "K", "X " + small, "E", "G", "R 0 100000", "D", "K"])))
+        ctx.count("tiny_cache_restarts")
+    ti, tm = seq_run(ctx, tiny, name="seq-tiny")
+    tbad = 0
+    for c, a in zip(tiny, ti):
+        f = fields(a)
+        if len(f) < 12 or not f[-10].startswith("stat"):
+            continue
+        before = (state_of_stat(f[-10]), f[-9], f[-8], f[-7])
+        after = (state_of_stat(f[-4]), f[-3], f[-2], f[-1])
+        if f[-6] != "opened" or before != after:
+            tbad += 1
+            if tbad <= 3:
+                which = [n for n, x, y in zip(("state", "read", "snapshot iteration", "directory bytes"), before, after) if x != y]
+                ctx.fail("oracle", "C02 oracle: %s differ(s) across a clean restart under a tiny cache (%s)" % (", ".join(which), f[-6][:80]),
+                         dict(kind="seq", case=c, before=[x[:300] for x in before], after=[x[:300] for x in after]))
+    ctx.k_checks["oracle-same-after-restart-under-tiny-cache"] = (tbad == 0, len(tiny))
+    ctx.cov["evaluations"] = ctx.cov.get("evaluations", 0) + len(tiny)
     impl, model = seq_run(ctx, cases)
     spec_oracle(ctx, cases, impl, "C02 oracle")
     # direct: what is observed right after every restart equals what was observed right before it,
